@@ -4,3 +4,5 @@ import HL.Spec.RefBuffer
 import HL.Lemmas.Text
 import HL.Props.C01
 import HL.Driver.AstJson
+import HL.Model.Ranges
+import HL.Spec.RangeSpec
